@@ -5,14 +5,15 @@ const PI_OVER_FOUR_K: f64 = 0.25_f64 * std::f64::consts::PI;
 /// region: 0 = north cap (lat > T), 1 = equatorial, 2 = south cap; neg: sign bit of the longitude
 fn region_lat(region: u8, lat: f64) -> bool { match region { 0 => lat > C_T, 1 => lat >= -C_T && lat <= C_T, _ => lat < -C_T } }
 
-fn k_c17_proj(region: u8, neg: bool) {
+fn k_c17_proj(region: u8, neg: bool, image: bool) {
   let lon: f64 = kani::any();
   let lat: f64 = kani::any();
   kani::assume(lon >= -25.2 && lon <= 25.2 && lat >= -C_HALF_PI && lat <= C_HALF_PI);
   kani::assume(region_lat(region, lat) && (lon.to_bits() >> 63 == 1) == neg);
   kani::cover!(lon > 7.0 || lon < -7.0, "second turn");
   kani::cover!(lat == -C_HALF_PI || lat == C_HALF_PI || lat == 0.0, "pole or equator");
-  p_c17_proj_range(lon, lat);
+  // the image clause in the polar caps (|x - centre| <= t) needs the monotonicity of the float multiplier: 25+ min, thorough tier
+  if image { p_c17_proj_range(lon, lat); } else { p_c17_proj_basic(lon, lat); }
 }
 
 /// agreement with the reference formulae, from the same libm values. In the polar caps the comparison involves a second copy
@@ -31,7 +32,8 @@ fn k_c17_proj_ref(region: u8, neg: bool) {
   let alat = f64::from_bits(lat.to_bits() & 0x7FFF_FFFF_FFFF_FFFF);
   let tol = 1.4210854715202004e-14;   // 2^-46
   if alat <= C_T {
-    let yr = lat.sin() * 1.5;
+    // proj evaluates sin(|lat|) and copies the sign (the libm contract does not state oddness: use the same argument)
+    let yr = f64::from_bits((alat.sin() * 1.5).to_bits() | (lat.to_bits() & 0x8000_0000_0000_0000));
     let mut dx = ax - x8;
     if dx > 4.0 { dx -= 8.0; }
     if dx < -4.0 { dx += 8.0; }
